@@ -1,10 +1,13 @@
 #!/usr/bin/env python3
 """
-seed_run.py <seed-id> [Cxx ...]  — apply /verif/seeded/<seed-id>/patch.diff to /repo, run the quick check of the
-property it targets (or the listed properties), undo the change straight afterwards, and record the outcome in
-/verif/seeded/<seed-id>/detection.json.
+seed_run.py <seed-id> [Cxx ...]   — run the quick check of the targeted property (or the listed ones) against an
+independently seeded property-breaking change, WITHOUT touching /repo or /verif's build: the patch is applied to a
+scratch worktree of /repo HEAD (/tmp/sr-repo, removed afterwards) and the checks run from a scratch clone of /verif
+(/tmp/sr-verif, kept between runs and fast-forwarded) with PYGQL_REPO pointing at the worktree.
+Outcome is recorded in /verif/seeded/<seed-id>/detection.json.
 """
 import json
+import os
 import subprocess
 import sys
 import time
@@ -13,27 +16,52 @@ sid = sys.argv[1]
 d = "/verif/seeded/" + sid
 meta = json.load(open(d + "/meta.json"))
 props = sys.argv[2:] or [meta["property"]]
-st = subprocess.run(["git", "-C", "/repo", "status", "--porcelain"], capture_output=True, text=True).stdout.strip()
-assert not st, "/repo not clean: " + st
-r = subprocess.run(["git", "-C", "/repo", "apply", d + "/patch.diff"], capture_output=True, text=True)
+SV, SR = "/tmp/sr-verif", "/tmp/sr-repo"
+
+
+def sh(cmd, **kw):
+    return subprocess.run(cmd, capture_output=True, text=True, **kw)
+
+
+if not os.path.isdir(SV):
+    sh(["git", "clone", "-q", "/verif", SV])
+else:
+    sh(["git", "-C", SV, "checkout", "--", "."])
+    sh(["git", "-C", SV, "pull", "-q", "--no-edit", "/verif", "HEAD"])
+sh(["git", "-C", "/repo", "worktree", "remove", "--force", SR])
+r = sh(["git", "-C", "/repo", "worktree", "add", "-q", SR, "HEAD"])
 assert r.returncode == 0, r.stderr
 out = {}
 try:
-    for p in props:
-        t = time.time()
-        r = subprocess.run(["/venv/bin/python", "/verif/harness/check.py", p, "--tier", "quick"], capture_output=True, text=True, cwd="/verif")
-        lines = [l for l in r.stdout.splitlines() if l.startswith("VIOLATION")]
-        out[p] = {"exit": r.returncode, "violation_lines": [l[:240] for l in lines][:5], "summary": r.stdout.strip().splitlines()[-1][:240] if r.stdout.strip() else "",
-                  "wall_s": round(time.time() - t, 1)}
-        print(p, "exit", r.returncode, "|", out[p]["summary"])
-        for l in lines[:3]:
-            print("   ", l[:200])
+    r = sh(["git", "-C", SR, "apply", d + "/patch.diff"])
+    if r.returncode != 0:
+        r = sh(["git", "-C", SR, "apply", "-3", d + "/patch.diff"])
+    if r.returncode != 0:
+        print(sid, "PATCH DOES NOT APPLY on /repo HEAD:", r.stderr.strip()[:200])
+        out = {"_error": "patch does not apply on /repo HEAD (fix commits changed its context); needs rebase"}
+    else:
+        env = dict(os.environ, PYGQL_REPO=SR)
+        for p in props:
+            t = time.time()
+            r = sh(["/venv/bin/python", SV + "/harness/check.py", p, "--tier", "quick"], cwd=SV, env=env)
+            lines = [l for l in r.stdout.splitlines() if l.startswith("VIOLATION")]
+            summary = [l for l in r.stdout.splitlines() if not l.startswith("KNOWN-FINDING") and not l.startswith("VIOLATION")]
+            out[p] = {"exit": r.returncode, "violation_lines": [l[:240].replace(SV, "/verif") for l in lines][:5],
+                      "summary": summary[-1][:240] if summary else "", "wall_s": round(time.time() - t, 1),
+                      "repo_head": sh(["git", "-C", "/repo", "rev-parse", "--short", "HEAD"]).stdout.strip(),
+                      "verif_head": sh(["git", "-C", SV, "rev-parse", "--short", "HEAD"]).stdout.strip()}
+            sigs = []
+            for l in lines[:3]:
+                try:
+                    rp = json.load(open(l.split("replay=")[1].split()[0]))
+                    sigs.append(rp.get("signature") or rp.get("kind"))
+                except Exception:
+                    pass
+            out[p]["signatures"] = sigs
+            print(sid, p, "exit", r.returncode, "|", out[p]["summary"], "|", sigs[:2])
 finally:
-    subprocess.run(["git", "-C", "/repo", "checkout", "--", "."])
-    subprocess.run(["git", "-C", "/repo", "clean", "-fdq", "src"])
-# restore clean-tree state of generated files / evidence for the touched properties
-for p in props:
-    subprocess.run(["/venv/bin/python", "/verif/harness/check.py", p, "--tier", "quick"], capture_output=True, text=True, cwd="/verif")
+    sh(["git", "-C", "/repo", "worktree", "remove", "--force", SR])
+    sh(["git", "-C", "/repo", "worktree", "prune"])
 prev = {}
 try:
     prev = json.load(open(d + "/detection.json"))
